@@ -9,7 +9,9 @@
     patterns in every well-name item), GRUPTREE, GEFAC, GCONPROD, GCONINJE, NEXTSTEP,
     UDQ ASSIGN/DEFINE/UNITS (registry), the ACTIONX ... ENDACTIO registry, and COMPORD (the
     connection ordering TRACK/DEPTH/INPUT a well gets when WELSPECS creates it, looked up in the
-    first COMPORD keyword of the *same* report step; `WellConnections::order()` after COMPDAT).
+    first COMPORD keyword of the *same* report step; `WellConnections::order()` after COMPDAT),
+    and the multisegment keywords WELSEGS / WSEGVALV / WSEGSICD / WSEGAICD (`CKw.msw`, `segStep`:
+    per-well segment sets `Props.segs` with valve / ICD devices).
 
   The state is split into channels so that what a handler may read and write is fixed by its
   *type* (this is what makes the C04 commutation argument structural):
@@ -273,10 +275,55 @@ def ROp.isConn : ROp → Bool
   | .wpimultG .. => true
   | _ => false
 
+/-- The device of a segment (`Segment::m_icd`): none (REGULAR), a valve (WSEGVALV: Cv, constriction area, status and
+the pipe diameter / roughness / cross-section area / maximum constriction area after the defaults have been filled in
+from the enclosing segment), a spiral or an autonomous ICD (observed part: device length, status). -/
+inductive Icd
+  | none
+  | valve (cv ac : Val) (isOpen : Bool) (pd pr pa maxA : Val)
+  | sicd (len : Val) (isOpen : Bool)
+  | aicd (len : Val) (isOpen : Bool)
+deriving DecidableEq, Repr
+
+/-- Segment (observed part). -/
+structure Seg where
+  num : Nat
+  branch : Nat
+  outlet : Nat
+  diam : Val
+  rough : Val
+  area : Val
+  icd : Icd := .none
+deriving DecidableEq, Repr
+
+/-- One WSEGVALV record; the additional pipe length is always defaulted (generator). -/
+structure ValveRec where
+  seg : Nat
+  cv : Val
+  ac : Val
+  pd : Option Val
+  pr : Option Val
+  pa : Option Val
+  isOpen : Bool
+  maxA : Option Val
+deriving DecidableEq, Repr
+
+/-- The multisegment-well keywords with an effect on the record: WELSEGS (first one of a well; segments 2.. of its
+records, one segment per record), WSEGVALV (all records of the keyword name the same well), WSEGSICD, WSEGAICD. -/
+inductive SegOp
+  | welsegs (well : String) (segs : List Seg)
+  | valve (pat : String) (recs : List ValveRec)
+  | sicd (pat : String) (seg : Nat) (len : Val) (isOpen : Bool)
+  | aicd (pat : String) (seg : Nat) (len : Val) (isOpen : Bool)
+deriving DecidableEq, Repr
+
 inductive CKw
   | ops (name : String) (rs : List ROp)
   | actionx (aname : String)
   | endactio
+  /-- WELSEGS / WSEGVALV / WSEGSICD / WSEGAICD: a new segment set for the wells named (`Well::updateWSEG*` install a
+  copy of the `WellSegments` object; the sets of the earlier snapshots are values of their own). -/
+  | msw (op : SegOp)
   /-- COMPORD: (well name pattern, order code 0 TRACK / 1 DEPTH / 2 INPUT) per record.  It has no
   handler of its own (`handleCOMPORD` is empty): `welspecsCreateNewWell` looks it up in the block. -/
   | compord (recs : List (String × Nat))
@@ -315,6 +362,8 @@ structure Props where
   /-- records of the first COMPORD keyword of the report step being processed
   (`block.get("COMPORD")` in `HandlerContext::welspecsCreateNewWell`) -/
   compord : List (String × Nat) := []
+  /-- well name ↦ its segment set (`Well::segments`), in insertion order; absent = not a multisegment well -/
+  segs : List (String × List Seg) := []
 deriving DecidableEq, Repr
 
 abbrev ConnMap := List (String × List Conn)
@@ -973,6 +1022,64 @@ def stepC (k : Consts) (m : List String) (p : Props) (c : ConnChan) : ROp → Ex
     | .ok ns => .ok { c with g := ns.foldl (fun g n => setKey g n f) c.g }
   | _ => .error .unsupported
 
+/-! ### multisegment wells -/
+
+/-- `WellSegments::getFromSegmentNumber` + `addSegment`: replace segment `n`; an unknown segment number throws. -/
+def setSeg (ss : List Seg) (n : Nat) (f : Seg → Seg) : Except Err (List Seg) :=
+  if n ≤ 1 then .error .unsupported                    -- devices on the top segment: outside the model
+  else if ss.any (fun s => s.num = n) then .ok (ss.map fun s => if s.num = n then f s else s)
+  else .error .input
+
+/-- `Segment::updateValve`: explicit pipe diameter / roughness / area overwrite the segment's, defaulted ones are
+taken from it; the maximum constriction area defaults to the pipe area. -/
+def valveOn (s : Seg) (r : ValveRec) : Seg :=
+  let d := optV s.diam r.pd
+  let ro := optV s.rough r.pr
+  let a := optV s.area r.pa
+  { s with diam := d, rough := ro, area := a, icd := .valve r.cv r.ac r.isOpen d ro a (optV a r.maxA) }
+
+/-- `WellSegments::updateWSEGVALV`: the records in order, on the copy. -/
+def applyValves (ss : List Seg) : List ValveRec → Except Err (List Seg)
+  | [] => .ok ss
+  | r :: rs =>
+    match setSeg ss r.seg (fun s => valveOn s r) with
+    | .error e => .error e
+    | .ok ss' => applyValves ss' rs
+
+/-- The handler loop over the wells named: every well gets a new segment set computed from its current one.  A well
+without segments is outside the model (the C++ dereferences a null `segments` pointer). -/
+def forSegs (sm : List (String × List Seg)) (f : List Seg → Except Err (List Seg)) :
+    List String → Except Err (List (String × List Seg))
+  | [] => .ok sm
+  | n :: r =>
+    match lookup sm n with
+    | none => .error .unsupported
+    | some ss =>
+      match f ss with
+      | .error e => .error e
+      | .ok ss' => forSegs (modify sm n fun _ => ss') f r
+
+def topSeg : Seg := { num := 1, branch := 1, outlet := 0, diam := "-", rough := "-", area := "-" }
+
+/-- The segment map after one multisegment keyword; reads the well list and the well lists only. -/
+def segStep (p : Props) : SegOp → Except Err (List (String × List Seg))
+  | .welsegs w segs =>
+    if !has p.wells w then .error .input
+    else if has p.segs w then .error .unsupported        -- WELSEGS re-issued (`loadWELSEGS` on a copy): outside the model
+    else .ok (p.segs ++ [(w, topSeg :: segs)])
+  | .valve pat recs =>
+    match wellNamesLst (names p.wells) p.wlists [] pat with
+    | .error e => .error e
+    | .ok ns => forSegs p.segs (fun ss => applyValves ss recs) ns
+  | .sicd pat n len o =>
+    match wellNamesLst (names p.wells) p.wlists [] pat with
+    | .error e => .error e
+    | .ok ns => forSegs p.segs (fun ss => setSeg ss n fun s => { s with icd := .sicd len o }) ns
+  | .aicd pat n len o =>
+    match wellNamesLst (names p.wells) p.wlists [] pat with
+    | .error e => .error e
+    | .ok ns => forSegs p.segs (fun ss => setSeg ss n fun s => { s with icd := .aicd len o }) ns
+
 /-! ### keywords, blocks, schedule -/
 
 /-- What a property operation sees of the connection channel. -/
@@ -1001,6 +1108,10 @@ def handle (k : Consts) (m : List String) (s : State) : CKw → Except Err State
   | .actionx _ => .ok s       -- only reachable through applyAction bodies; no handler effect
   | .endactio => .ok s
   | .compord _ => .ok s       -- `handleCOMPORD` is empty
+  | .msw op =>
+    match segStep s.p op with
+    | .error e => .error e
+    | .ok sm => .ok { s with p := { s.p with segs := sm } }
 
 def addAction (s : State) (n : String) (body : List CKw) : State :=
   { s with p := { s.p with actions := setKey s.p.actions n body } }
